@@ -1,6 +1,6 @@
-(** C02 - every supported encoding reproduces the server framebuffer exactly: theorems for Raw and
-    CopyRect rectangles and for the framing of whole updates (the other encodings are decided by the
-    independent-encoder campaign; see DESIGN.md 9.2). *)
+(** C02 - every supported encoding reproduces the server framebuffer exactly: continuation-form round
+    trips for Raw, CopyRect, RRE, CoRRE, Hextile and cursor-shape rectangles and for whole updates mixing
+    them, and for ZRLE rectangles over the inflated tile stream. *)
 From Coq Require Import ZArith List Bool.
 From RecordUpdate Require Import RecordSet.
 Import RecordSetNotations.
@@ -57,7 +57,7 @@ Theorem C02_bell_after : forall s tail es r n,
 Proof. exact bell_step. Qed.
 Print Assumptions C02_bell_after.
 
-From VD Require Import Base.PixFmt Gen.Tables Proofs.RreP Proofs.UpdateP.
+From VD Require Import Base.PixFmt Gen.Tables Proofs.RreP Proofs.HextileP Proofs.ZrleP Proofs.UpdateP.
 
 (** RRE (7.7.3): the subrectangle count, the background pixel and (pixel, x, y, w, h) per subrectangle
     are consumed exactly; the client fills the rectangle with the background and then every
@@ -90,8 +90,72 @@ Theorem C02_corre_roundtrip : forall s x y w h bg subs tail s2 p2 es2 es r n,
 Proof. exact corre_roundtrip. Qed.
 Print Assumptions C02_corre_roundtrip.
 
-(** A whole FramebufferUpdate mixing Raw, CopyRect, RRE and CoRRE rectangles in any order. *)
-Theorem C02_update_four_encodings : forall s pad rs tail es r n,
+(** Hextile (7.7.4): the rectangle is cut into 16x16 tiles in row-major order ([covers]); a tile is raw
+    pixels, or an optional background, optional foreground and subrectangles (in the foreground colour
+    or each with its own), colours being carried over from earlier tiles as the RFC says, also across raw
+    tiles (after coloured subrectangles the foreground is not relied upon).  Every tile is
+    consumed exactly and gives one update (raw) or one background fill plus one fill per subrectangle,
+    in order, at the tile's offset - for every rectangle size, every tile sequence that respects the
+    carry-over rule ([tiles_ok]), every count (0 included) and every tail. *)
+Theorem C02_hextile_roundtrip : forall s x y w h ts tail s2 p2 es2 es r n,
+  u16ok x -> u16ok y -> u16ok w -> u16ok h -> 0 < w -> 0 < h -> rects s <> 0 -> 0 < bypp s ->
+  let s1 := enter_rect s x y w h in
+  covers x y w h ts x y -> tiles_ok s1 x y w h ts x y None None ->
+  do_connection s1 = Ok s2 (Some p2) es2 ->
+  Drain s2 p2 tail es r n ->
+  Drain s PRect (wire_hextile x y w h ts ++ tail)
+        (tiles_events x y w h ts x y None None ++ es2 ++ es) r (S (tiles_steps ts + n)).
+Proof. exact hextile_roundtrip. Qed.
+Print Assumptions C02_hextile_roundtrip.
+
+(** ZRLE (7.7.6), 32-bit true-colour formats (3-byte CPIXELs).  zlib is an oracle: [ztape] is what the
+    inflater returns for the rectangle's compressed bytes, whatever those are.  If that is the
+    concatenation of the tiles of the rectangle - raw, solid, plain RLE, palette RLE (2..127 colours) and
+    packed palette (2..16 colours) tiles, run lengths of any size - then the client makes exactly one
+    update (fill for a solid tile) per 64x64 tile, in order, carrying exactly the tile's pixels.  Packed
+    tiles are covered when their rows need no padding; for padded rows the statement is false of the code
+    (next theorem). *)
+Theorem C02_zrle_roundtrip : forall s x y w h comp ts tape' tail s2 p2 es2 es r n,
+  u16ok x -> u16ok y -> u16ok w -> u16ok h -> rects s <> 0 -> len comp < 4294967296 ->
+  ztape s = Some (concat (map wire_ztile ts)) :: tape' ->
+  let s' := set ztape (fun _ => tape') (enter_rect s x y w h) in
+  zcovers x y w h ts x y -> ztiles_ok s' x y w h ts x y ->
+  do_connection s' = Ok s2 (Some p2) es2 ->
+  Drain s2 p2 tail es r n ->
+  Drain s PRect (rect_hdr x y w h [0; 0; 0; 16] ++ be_enc 4 (len comp) ++ comp ++ tail)
+        (zevents x y w h ts x y ++ es2 ++ es) r (S (S (S n))).
+Proof. exact zrle_roundtrip. Qed.
+Print Assumptions C02_zrle_roundtrip.
+
+(** The recorded finding zrle-packed-rows as a theorem about the model of the code as it is: a 3x2 tile
+    with a two-colour palette written as the RFC says (each row padded to a byte) is decoded with wrong
+    pixels in the second row and the client then raises. *)
+Theorem C02_zrle_packed_padded_rows_refuted :
+  let c := mk_cfg 1 1 None [] [] false false false false false 0 [] in
+  let s := mk_st c None None (3, 8) (3, 8) 0 [] RGB32 MRGBX 8 8 false 0 0 [] [] [] false in
+  let rows := [[1; 0; 1]; [0; 1; 1]] in
+  let data := [2] ++ [10; 20; 30] ++ [40; 50; 60] ++ rfc_pack_rows1 rows in
+  let meant := colours [(10, 20, 30); (40, 50, 60)] (concat rows) in
+  rfc_pack_rows1 rows = [160; 96] /\
+  (exists got, zrle_tiles 10 s data 0 0 3 2 0 0 = Raise [EUpd 0 0 3 2 got] /\ got <> meant).
+Proof. exact zrle_packed_padded_rows_refuted. Qed.
+Print Assumptions C02_zrle_packed_padded_rows_refuted.
+
+(** Cursor pseudo-encoding (7.8.1): exactly one updateCursor with the image and the mask split where the
+    RFC says. *)
+Theorem C02_cursor_roundtrip : forall s x y w h img mask tail s2 p2 es2 es r n,
+  u16ok x -> u16ok y -> u16ok w -> u16ok h -> rects s <> 0 ->
+  let s1 := enter_rect s x y w h in
+  len img = w * h * bypp s1 -> len mask = (w + 7) / 8 * h ->
+  do_connection s1 = Ok s2 (Some p2) es2 ->
+  Drain s2 p2 tail es r n ->
+  Drain s PRect (rect_hdr x y w h CURSOR_ENC ++ (img ++ mask) ++ tail) ([ECursor x y w h img mask] ++ es2 ++ es) r (S (S n)).
+Proof. exact cursor_roundtrip. Qed.
+Print Assumptions C02_cursor_roundtrip.
+
+(** A whole FramebufferUpdate mixing Raw, CopyRect, RRE, CoRRE, Hextile and cursor-shape rectangles in any
+    order (every encoding the client supports except ZRLE, whose two known defects are recorded findings). *)
+Theorem C02_update_mixed_encodings : forall s pad rs tail es r n,
   rs <> [] -> len rs < 65536 -> 0 <= bypp s -> Forall (qok s) rs ->
   let sf := after_qrects (start_update s (len rs)) rs in
   let '(sc, ces) := commit sf in
@@ -99,11 +163,11 @@ Theorem C02_update_four_encodings : forall s pad rs tail es r n,
   Drain s PConnection ([0; pad] ++ be_enc 2 (len rs) ++ concat (map qwire rs) ++ tail)
         ([EBegin] ++ concat (map qevents rs) ++ ces ++ es) r (2 + sum_steps rs + n).
 Proof. exact qupdate_roundtrip. Qed.
-Print Assumptions C02_update_four_encodings.
+Print Assumptions C02_update_mixed_encodings.
 
 (** The premises are met: a library client on an RGB32 server, one update with an RRE rectangle of two
-    subrectangles, a CoRRE rectangle without any, a Raw and a CopyRect rectangle. *)
-Example C02_four_encodings_nonvacuous :
+    subrectangles, a CoRRE rectangle without any, a Raw and a CopyRect rectangle (Hextile: next example). *)
+Example C02_mixed_encodings_nonvacuous :
   let c := mk_cfg 1 1 None [] [] false false false false false 0 [] in
   let s := mk_st c None None (3, 8) (3, 8) 0 [] RGB32 MRGBX 8 8 false 0 0 [] [] [] false in
   let rs := [ QRre 1 1 4 4 [9; 9; 9; 0] [([1; 2; 3; 0], 0, 0, 2, 1); ([4; 5; 6; 0], 1, 2, 1, 1)];
@@ -116,3 +180,39 @@ Proof.
   - repeat constructor; vm_compute; try reflexivity; try (split; discriminate || reflexivity); intuition discriminate.
   - split; [discriminate|reflexivity].
 Qed.
+
+(** A 17x2 Hextile rectangle: a 16-wide tile with background, foreground and one foreground
+    subrectangle, then a 1-wide tile that reuses the background and brings one coloured subrectangle. *)
+Example C02_hextile_nonvacuous :
+  let c := mk_cfg 1 1 None [] [] false false false false false 0 [] in
+  let s := mk_st c None None (3, 8) (3, 8) 0 [] RGB32 MRGBX 8 8 false 0 0 [] [] [] false in
+  let ts := [ HSub (Some [5; 5; 5; 0]) (Some [6; 6; 6; 0]) (HFg [(1, 0, 2, 1)]);
+              HSub None None (HCol [([9; 9; 9; 0], (0, 0, 1, 2))]) ] in
+  covers 0 0 17 2 ts 0 0 /\ tiles_ok s 0 0 17 2 ts 0 0 None None /\
+  tiles_events 0 0 17 2 ts 0 0 None None =
+    [EFill 0 0 16 2 [5; 5; 5; 0]; EFill 1 0 2 1 [6; 6; 6; 0]; EFill 16 0 1 2 [5; 5; 5; 0]; EFill 16 0 1 2 [9; 9; 9; 0]].
+Proof.
+  cbv zeta. split; [vm_compute; reflexivity|]. split; [|vm_compute; reflexivity].
+  cbn. repeat (first [split | eexists | constructor | intro]); try reflexivity; try (vm_compute; reflexivity); try discriminate.
+Qed.
+
+From VD Require Import Model.Image Model.Screen Model.Apply Proofs.ScreenP Proofs.FramebufferP.
+
+(** From callbacks to the framebuffer.  The screen the client builds by applying the decoder's
+    callbacks (updateRectangle, fillRectangle = an update whose pixels all have the fill colour,
+    updateDesktopSize, and - with --nocursor - updateCursor) of ANY history whose screen operations are
+    accepted is, pixel for pixel and in size, the reference canvas of what those callbacks carry
+    (composition theorem of C12).  Together with the round trips above: the bytes of an update determine
+    the callbacks, the callbacks determine the canvas. *)
+Theorem C02_callbacks_give_reference_canvas : forall nocursor es l,
+  Forall no_mode es ->
+  Forall (lop_ok nocursor) (concat (map op_of_ev es)) ->
+  lrun (lib0 nocursor) (concat (map op_of_ev es)) = Some l ->
+  let h := sops_of DEFAULT_IMAGE_MODE (concat (map op_of_ev es)) in
+  fold_left apply_ev es (lib0 nocursor) = l /\
+  wf_opt (screen l) /\
+  (forall px py, 0 <= px -> 0 <= py ->
+     get_opt (screen l) px py = fold_left ref_step h (fun _ _ => black) px py) /\
+  size_opt (screen l) = fold_left ref_size h None.
+Proof. exact callbacks_give_reference_canvas. Qed.
+Print Assumptions C02_callbacks_give_reference_canvas.
